@@ -414,10 +414,14 @@ fn("_ZN3etl7find_ifIN2vf3idxIiEEZNS_6removeIS3_iEET_S5_S5_RKT0_EUlRKS5_E_EES5_S5
      INV("(vf_j < vf_n && (long)vf_j < first.i) ==> !%s" % EQV("first.base[vf_j]")), XDEC]])
 
 # remove_copy_if / remove_copy: [alg.remove] copies the elements NOT satisfying the predicate to consecutive positions
-RCW = "(vf_k < vf_n && %s) || (vf_j < vf_n && %s)"
+# Known finding C06_remove_copy_if_holes (the destination advances for every element).  The defect shows for every input with a removed
+# element; "no element is removed" is a universally quantified hypothesis that a ghost index cannot supply, and the loop invariant of the
+# correct algorithm (destination.i <= first.i) is not inductive on the defective loop, so the witness class of the CONTRACT is every
+# non-empty range (the bounded stand-ins carry the precise class: some element is removed).
+RCW = "vf_n > 0"
 fn("etl::remove_copy_if<vf::idx<int>, vf::idx<int>, vf::pred3>", "etl_remove_copy_if", [R(xrng()), R(XJ), R(xbuf("destination"))] +
    compact_clauses(lambda e: "(!%s)" % P3(e), "destination.base") +
-   [("KNOWN", "C06_remove_copy_if_holes :: " + RCW % (P3("first.base[vf_k]"), P3("first.base[vf_j]"))), A(xupto("destination.base"))],
+   [("KNOWN", "C06_remove_copy_if_holes :: " + RCW), A(xupto("destination.base"))],
    [[A("first.i, destination.i, " + xupto("destination.base")),
      INV("0 <= first.i && first.i <= last.i && 0 <= destination.i && destination.i <= first.i"),
      INV("(long)vf_j < destination.i ==> !%s" % P3("destination.base[vf_j]")),
@@ -426,7 +430,7 @@ fn("etl::remove_copy_if<vf::idx<int>, vf::idx<int>, vf::pred3>", "etl_remove_cop
      XDEC]])
 fn("etl::remove_copy<vf::idx<int>, vf::idx<int>, int>", "etl_remove_copy", [R("FRESH(value, sizeof(int))"), R(xrng()), R(XJ), R(xbuf("destination"))] +
    compact_clauses(lambda e: "(!(%s == *value))" % e, "destination.base") +
-   [("KNOWN", "C06_remove_copy_if_holes :: " + RCW % ("first.base[vf_k] == *value", "first.base[vf_j] == *value")), A(xupto("destination.base"))])
+   [("KNOWN", "C06_remove_copy_if_holes :: " + RCW), A(xupto("destination.base"))])
 EQP = lambda e: "(%s == *p.cap0)" % e
 fn("_ZN3etl14remove_copy_ifIN2vf3idxIiEES3_ZNS_11remove_copyIS3_S3_iEET0_T_S6_S5_RKT1_EUlRKS6_E_EES5_S6_S6_S5_S7_", "etl_remove_copy_if_lambda", [],
    [[A("first.i, destination.i, " + xupto("destination.base")),
